@@ -13,6 +13,8 @@ CLAIMED = {
          "ordering/pairing typestate, lockset and guard-dominance rules over clang CFGs"),
  "C03": ("Static rules over source/allocator_sba.c: lockset on bin state and page counts through the allocator's lock function pointers (requires-lock helpers get the lock of the same bin from every call site and never drop it), alloc_count pairing per returned chunk / per free, exact page-release condition and the purge/unlink/tag-erase steps before it, small/large classification (tags, s_max_bin_size, size-class table, 16-byte alignment of header and classes), realloc copy bound and order, calloc zero length, destroy frees every page. Decides protocol and pairing, not disjointness over histories.",
          "lockset with interprocedural lock context, pairing typestate, guard-dominance and constant-table rules over clang CFGs"),
+ "C01": ("Relational numeric abstract interpretation (polyhedral facts over symbolic lengths/capacities, no-wrap side conditions, trace partitioning) of every function of source/byte_buf.c: every explicit memory access is inside its buffer/cursor/table/allocation for ALL lengths and capacities including SIZE_MAX-adjacent ones; stored lengths never wrap; len <= capacity at every return; no caller-visible field or byte changes on any failure path; appends write only past the entry length; growth copies before scrubbing/releasing; secure zero has its compiler barrier. Content equality is not decided.",
+         "abstract interpretation (linear-constraint domain, Fourier-Motzkin entailment) + ordering rules over clang CFGs"),
 }
 NA_DEFAULT = "check not built yet in this commit (see DESIGN.md section 9 build order)"
 NA = {}
